@@ -356,6 +356,9 @@ pub enum Spell {
     ClosureMut,
     /// a single identifier brought into scope by `use ulib::f;` (the shortest possible path)
     Bare,
+    /// a closure with an early `return` (semantically the same function): `return` must leave the closure, not
+    /// whatever generated function the closure's body might have been pasted into
+    ClosureReturn,
 }
 
 #[derive(Clone, Debug, PartialEq, Eq, Hash)]
@@ -425,6 +428,8 @@ pub enum Form {
     /// or binding the expansion introduces must not capture the user's identifier
     ShadowMax,
     ShadowMin,
+    /// `K >> 1` with K = 2v (integers only): like `Shl`, an operator that binds looser than `+`/`-`
+    Shr,
 }
 
 #[derive(Clone, Debug, PartialEq, Eq, Hash)]
